@@ -246,6 +246,38 @@ func runScenario(k *hubkit.Kit, c *Case, dist map[string]int) map[uint64]*peerIn
 			}
 		case "pause":
 			time.Sleep(80 * time.Millisecond)
+		case "drainwait":
+			// waiting hint only: every reader still connected has all but at most one of the messages sent
+			// so far (or has been cut and has read up to the close)
+			sentSoFar := 0
+			for j := 0; j < i; j++ {
+				if c.Ops[j].K == "send" && c.Ops[j].Ack && c.Ops[j].Size > 0 {
+					sentSoFar++
+				}
+			}
+			for n, pi := range peers {
+				if pi.leftAt >= 0 || !has(pi.scopes, "read") {
+					continue
+				}
+				mine := 0
+				for j := 0; j < i; j++ {
+					if c.Ops[j].K == "send" && c.Ops[j].Ack && c.Ops[j].N == n && c.Ops[j].Size > 0 {
+						mine++
+					}
+				}
+				p, want := pi.p, sentSoFar-mine-1
+				hubkit.WaitFor(10*time.Second, func() bool {
+					if e, _, _ := p.Ended(); e {
+						return true
+					}
+					got := 0
+					for _, f := range p.Frames() {
+						got += len(f.Info.(finfo).items)
+					}
+					return got >= want
+				})
+			}
+			time.Sleep(20 * time.Millisecond)
 		case "stall":
 			peers[o.N].p.Stall(true)
 		case "unstall":
